@@ -488,14 +488,17 @@ impl<F: MatchFunc> Aligner<F> {
             if i_end < (m + 1) {
                 self.S[curr][m] = MIN_SCORE;
             }
-            // Track the score if we do clip (y) from origin
-            if self.scoring.yclip_prefix > self.scoring.yclip_suffix {
-                self.Sn[0] = self.scoring.yclip_prefix;
-                self.traceback.get_mut(0, n).set_s_bits(TB_YCLIP_PREFIX);
-            } else {
-                self.Sn[0] = self.scoring.yclip_suffix;
-                self.Ly[0] = n;
-                self.traceback.get_mut(0, n).set_s_bits(TB_YCLIP_SUFFIX);
+            // Track the score if we do clip (y) from origin. An empty y cannot be clipped:
+            // cell (0, n) would be the origin, whose TB_START must stay intact.
+            if n > 0 {
+                if self.scoring.yclip_prefix > self.scoring.yclip_suffix {
+                    self.Sn[0] = self.scoring.yclip_prefix;
+                    self.traceback.get_mut(0, n).set_s_bits(TB_YCLIP_PREFIX);
+                } else {
+                    self.Sn[0] = self.scoring.yclip_suffix;
+                    self.Ly[0] = n;
+                    self.traceback.get_mut(0, n).set_s_bits(TB_YCLIP_SUFFIX);
+                }
             }
         }
 
@@ -728,7 +731,7 @@ impl<F: MatchFunc> Aligner<F> {
                     best_score = self.scoring.yclip_suffix;
                     self.traceback.get_mut(0, j).set_s_bits(TB_YCLIP_SUFFIX);
                 }
-                if (self.scoring.xclip_suffix + best_score) > self.S[n % 2][m] {
+                if m > 0 && (self.scoring.xclip_suffix + best_score) > self.S[n % 2][m] {
                     self.S[n % 2][m] = self.scoring.xclip_suffix + best_score;
                     self.Lx[n] = m;
                     self.traceback.get_mut(m, n).set_s_bits(TB_XCLIP_SUFFIX);
@@ -749,7 +752,7 @@ impl<F: MatchFunc> Aligner<F> {
                     best_score = self.scoring.xclip_suffix;
                     self.traceback.get_mut(i, 0).set_s_bits(TB_XCLIP_SUFFIX);
                 }
-                if (self.scoring.yclip_suffix + best_score) > self.S[n % 2][m] {
+                if n > 0 && (self.scoring.yclip_suffix + best_score) > self.S[n % 2][m] {
                     self.S[n % 2][m] = self.scoring.yclip_suffix + best_score;
                     self.Ly[m] = n;
                     self.traceback.get_mut(m, n).set_s_bits(TB_YCLIP_SUFFIX);
